@@ -761,6 +761,9 @@ def special_inputs(ctx, pid):
                 npar = {"s": n ** 2, "d": n ** 4, "sd": n ** 2 + n ** 4}[exc]
                 params = [round(ctx.rng.uniform(-1, 1), 6) for _ in range(npar)]
                 run_special(ctx, pid, {"comp": True, "what": "qucc", "exc": exc, "n": n, "params": params})
+                # complex amplitudes: the generator T - T^dagger is anti-Hermitian for every parameter vector
+                cparams = [[round(ctx.rng.uniform(-1, 1), 6), round(ctx.rng.uniform(-1, 1), 6)] for _ in range(npar)]
+                run_special(ctx, pid, {"comp": True, "what": "qucc", "exc": exc, "n": n, "cparams": cparams})
     if pid == "C03":
         run_special(ctx, pid, {"comp": True, "what": "general_inverse_particles", "n": 2})
         run_special(ctx, pid, {"comp": True, "what": "circuit_with_general", "n": 1})
@@ -805,7 +808,8 @@ def run_special(ctx, pid, inp):
         n = inp["n"]
         f = qib.field.Field(qib.field.ParticleType.FERMION, qib.lattice.IntegerLattice((n,), pbc=False))
         a = qUCC(f, inp["exc"])
-        U = dense(a.as_matrix(inp["params"]))
+        params = inp["params"] if "params" in inp else [complex(re, im) for re, im in inp["cparams"]]
+        U = dense(a.as_matrix(params))
         if U.shape != (2 ** n, 2 ** n) or maxerr(U @ U.conj().T, np.eye(U.shape[0])) > TOL or not a.is_unitary():
             ctx.fail("qUCC:not-unitary:" + inp["exc"], inp, "unitary", maxerr(U @ U.conj().T, np.eye(U.shape[0])))
         ctx.nontriv(("qucc", inp["exc"], n))
